@@ -212,9 +212,12 @@ def check(ctx, rep):
             loop = next((l for l in loops if any(x is c for x in ast.walk(l))), None)
             var = norm(loop.target) if loop is not None else None
             a0 = expand_ast(c.args[0], pe) if c.args else None
-            want = f"self.selectorbase + '/' + {var}"
-            if a0 is None or norm(a0) != want:
-                problems.append(f"the child selector is `{norm(a0) if a0 is not None else '?'}`, not {want}")
+            from ..structure import concat_pieces
+
+            got = concat_pieces(a0) if a0 is not None else None
+            want = [("expr", "self.selectorbase"), ("lit", "/"), ("expr", var)]
+            if got != want:
+                problems.append(f"the child selector is `{norm(a0) if a0 is not None else '?'}`, not selectorbase + '/' + {var}")
             kw = {k.arg: norm(k.value) for k in c.keywords}
             if kw.get("vfs") != "self.vfs" and not (len(c.args) >= 6 and norm(c.args[5]) == "self.vfs"):
                 problems.append("children are looked up on a different VFS than their directory")
